@@ -124,46 +124,53 @@ func miscLaws() []L {
 	}
 }
 
-// pinned replays the pinned witnesses of the known findings.
+// pin replays one pinned witness: the expression must give `correct`; while it gives `wrong` (canonical
+// text, or an error containing the text after "ERR:") the known finding law:mode still holds.
+func pin(r *core.Run, law, mode, what, expr, correct, wrong string) {
+	g5lib.PinnedInst(r, law, mode, what, &Inst{Class: "pinned", Exprs: []string{expr}, OnErr: g5lib.ErrToCheck, Check: func(v []V) string {
+		if g5lib.IsErr(v) {
+			if strings.HasPrefix(wrong, "ERR:") && strings.Contains(g5lib.ErrOf(v), wrong[4:]) {
+				return mode
+			}
+			return "error"
+		}
+		switch v[0].Canon() {
+		case correct:
+			return ""
+		case wrong:
+			return mode
+		}
+		return "pinned-witness-gives-a-third-value"
+	}})
+}
+
+// pinned replays the pinned witnesses of the known findings (findings/C34.txt).
 func pinned(r *core.Run) {
-	g5lib.PinnedInst(r, "inet-ntoa-aton", "first-octet>=128-clamped-to-127.255.255.255", "INET_NTOA clamps addresses >= 128.0.0.0 to 127.255.255.255",
-		g5lib.NewInst("pinned", nil, func(v []V) string {
-			if v[0].IsStr("255.127.127.166") {
-				return ""
-			}
-			if v[0].IsStr("127.255.255.255") {
-				return "first-octet>=128-clamped-to-127.255.255.255"
-			}
-			return "ntoa-of-aton-differs"
-		}, "INET_NTOA(INET_ATON('255.127.127.166'))"))
-	g5lib.PinnedInst(r, "pad", "multibyte-target-length-counted-in-bytes", "LPAD/RPAD count the target length in bytes for multi-byte strings",
-		g5lib.NewInst("pinned", nil, func(v []V) string {
-			if v[0].IsStr("xyxyÀÉ") && v[1].IsInt(6) {
-				return ""
-			}
-			if v[0].IsStr(padByteRef("ÀÉ", 6, "xy", true)) {
-				return "multibyte-target-length-counted-in-bytes"
-			}
-			return "differs-from-reference-padding"
-		}, "LPAD('ÀÉ',6,'xy')", "CHAR_LENGTH(LPAD('ÀÉ',6,'xy'))"))
-	g5lib.PinnedInst(r, "floor-ceil-decimal", "ceil-of-0<x<0.1-returns-0", "CEIL of an exact decimal in (0, 0.1) returns 0",
-		g5lib.NewInst("pinned", nil, func(v []V) string {
-			if v[0].IsInt(1) {
-				return ""
-			}
-			if v[0].IsInt(0) {
-				return "ceil-of-0<x<0.1-returns-0"
-			}
-			return "ceil-not-smallest-integer-above"
-		}, "CEIL(0.005)"))
-	g5lib.PinnedInst(r, "floor-ceil-decimal", "floor-of--0.1<x<0-returns-0", "FLOOR of an exact decimal in (-0.1, 0) returns 0",
-		g5lib.NewInst("pinned", nil, func(v []V) string {
-			if v[0].IsInt(-1) {
-				return ""
-			}
-			if v[0].IsInt(0) {
-				return "floor-of--0.1<x<0-returns-0"
-			}
-			return "floor-not-largest-integer-below"
-		}, "FLOOR(-0.005)"))
+	pin(r, "inet-ntoa-aton", "first-octet>=128-clamped-to-127.255.255.255", "INET_NTOA clamps addresses >= 128.0.0.0 to 127.255.255.255",
+		"INET_NTOA(INET_ATON('255.127.127.166'))", "'255.127.127.166'", "'127.255.255.255'")
+	pin(r, "pad", "multibyte-target-length-counted-in-bytes", "LPAD/RPAD count the target length in bytes for multi-byte strings",
+		"LPAD('ÀÉ',6,'xy')", "'xyxyÀÉ'", "'xyÀÉ'")
+	pin(r, "floor-ceil-decimal", "ceil-of-0<x<0.1-returns-0", "CEIL of an exact decimal in (0, 0.1) returns 0", "CEIL(0.005)", "1", "0")
+	pin(r, "floor-ceil-decimal", "floor-of--0.1<x<0-returns-0", "FLOOR of an exact decimal in (-0.1, 0) returns 0", "FLOOR(-0.005)", "-1", "0")
+	pin(r, "abs-sign", "sign-of-0<|x|<0.5-returns-0", "SIGN of a decimal with 0 < |x| < 0.5 returns 0 (the argument is rounded to an integer first)", "SIGN(0.4)", "1", "0")
+	pin(r, "bin-oct-hex-conv", "bin-of-negative-concatenates-unpadded-bytes", "BIN of a negative integer prints the bytes without zero padding",
+		"BIN(-148)", "'1111111111111111111111111111111111111111111111111111111101101100'", "'111111111111111111111111111111111111111111111111111111111101100'")
+	pin(r, "crc32", "binary-string-argument-errors", "CRC32 of a binary string raises 'Invalid argument to crc32'", "CRC32(x'616263')", "891568578", "ERR:Invalid argument to crc32")
+	pin(r, "format", "more-than-15-significant-digits-through-double", "FORMAT converts exact decimals to float64 and loses digits",
+		"FORMAT(46941242620313.65759,4)", "'46,941,242,620,313.6576'", "'46,941,242,620,313.6600'")
+	pin(r, "format", "exact-tie-rounded-down-through-double", "FORMAT rounds exact decimal ties through float64 (1.005 -> 1.00)", "FORMAT(1.005,2)", "'1.01'", "'1.00'")
+	pin(r, "greatest-least", "decimal-result-rounded-to-double", "GREATEST/LEAST return exact decimals rounded to float64",
+		"GREATEST(-28.5765,8745226766810.153759)", "8745226766810.153759", "f8.745226766810153e+12")
+	pin(r, "greatest-least", "integer-argument-beyond-2^53-compared-as-double", "GREATEST/LEAST compare integers as float64 (wrong beyond 2^53, overflow at maxint64)",
+		"GREATEST(1,9223372036854775807)", "9223372036854775807", "-9223372036854775808")
+	pin(r, "greatest-least", "integer-argument-compared-with-truncated-running-value", "GREATEST/LEAST compare an integer argument with the running selection truncated to int64",
+		"LEAST(0.74,0)", "0", "f0.74")
+	pin(r, "insert-splice", "multibyte-positions-counted-in-bytes", "INSERT() counts position and length in bytes", "HEX(INSERT('éabc',2,1,'X'))", "'C3A9586263'", "'C358616263'")
+	pin(r, "locate", "multibyte-position-counted-in-bytes", "LOCATE/POSITION return byte positions for multi-byte strings", "LOCATE('b','éb')", "2", "3")
+	pin(r, "locate-from", "multibyte-position-counted-in-bytes", "LOCATE with a start position counts it in bytes", "LOCATE('b','éébb',4)", "4", "5")
+	pin(r, "locate", "case-folded-match-under-binary-collation", "LOCATE/POSITION fold case although the collation is utf8mb4_0900_bin (INSTR does not)", "LOCATE('A','xaA')", "3", "2")
+	pin(r, "locate-from", "case-folded-match-under-binary-collation", "LOCATE(…, pos) folds case although the collation is utf8mb4_0900_bin", "LOCATE('A','xaA',2)", "3", "2")
+	pin(r, "mod", "decimal-quotient-longer-than-operands-division-impossible", "MOD/% on exact decimals fails when the integer quotient has more digits than the operands",
+		"MOD(3.00,0.00033)", "0.0003", "ERR:division impossible")
+	pin(r, "repeat-space", "repeat-negative-count-errors", "REPEAT with a negative count raises an error instead of returning ''", "REPEAT('a',-1)", "''", "ERR:negative Repeat count")
 }
